@@ -13,5 +13,6 @@ globals().update(build('C11', 'Merging is associative, order-insensitive and nev
     'harness.agg.generated',   # translate/scalar.py: generated scalar definitions (self-check + theorems)
     'harness.agg.histories',   # reads interleaved with add / merge / merge_states on the same state objects (SC07)
     'harness.agg.conditioning',  # ill-conditioned float64 data vs exact rationals, derived tolerance (SC07)
+    'harness.agg.mergestates',   # ONE merge_states call over 0..9 states, every state read afterwards (SC11)
     'harness.agg.heapobs',     # array-valued state over buffer cells: returned values, caller writes (C11T)
 ]))
